@@ -480,8 +480,21 @@ func (p *Posix) DeleteBucket(_ context.Context, bucket string) error {
 	}
 
 	verifhook.At("delbkt.checked", "bucket", bucket)
-	// Remove the bucket
-	err = os.RemoveAll(bucket)
+	// Remove the bucket. Only what the emptiness check tolerates (the
+	// gateway's own temp directory) is removed recursively; the bucket
+	// directory itself is removed with rmdir, which fails if an object was
+	// published since the check: that object must not be lost.
+	err = os.RemoveAll(filepath.Join(bucket, metaTmpDir))
+	if err != nil {
+		return fmt.Errorf("remove bucket temp dir: %w", err)
+	}
+	err = os.Remove(bucket)
+	if errors.Is(err, syscall.ENOTEMPTY) || errors.Is(err, syscall.EEXIST) {
+		return s3err.GetAPIError(s3err.ErrBucketNotEmpty)
+	}
+	if errors.Is(err, fs.ErrNotExist) {
+		return s3err.GetAPIError(s3err.ErrNoSuchBucket)
+	}
 	if err != nil {
 		return fmt.Errorf("remove bucket: %w", err)
 	}
@@ -1263,7 +1276,10 @@ func (p *Posix) CreateMultipartUpload(ctx context.Context, mpu s3response.Create
 	tmppath := filepath.Join(bucket, objdir)
 	// the unique upload id is a directory for all of the parts
 	// associated with this specific multipart upload
-	err = os.MkdirAll(filepath.Join(tmppath, uploadID), 0755)
+	err = backend.MkdirAll(filepath.Join(tmppath, uploadID), 0, 0, false, 0755)
+	if errors.Is(err, fs.ErrNotExist) {
+		return s3response.InitiateMultipartUploadResult{}, s3err.GetAPIError(s3err.ErrNoSuchBucket)
+	}
 	if err != nil {
 		return s3response.InitiateMultipartUploadResult{}, fmt.Errorf("create upload temp dir: %w", err)
 	}
